@@ -428,7 +428,7 @@ func init() {
 		ID: "C06", Level: "exploration",
 		Rule:        "PRNG sequences mixing candidate changes, subscriptions (new, repeated, contract without newEpoch/1), reject-flag flips of 0-5 probe subscriber contracts, a destroyed subscriber, a subscriber armed to call newEpoch(e+d) back from its callback (d in -1..3) and ticks with epoch arguments {smaller, equal, +1, +2, +5, 0, 2^31, values within 13 of 2^7/2^8/2^15/2^16/2^24, an early jump onto each value 243..259}, 1-2 transactions per block, committees 1/3/4/7; a model predicts success and, per tick, the exact Tick sequence of the probes; epoch, lastEpochBlock, netmap, snapshot(0), listNodes, both candidate lists are read after every block. distinct = (operation, signer class, reason/outcome, subscriber and candidate counts); every case is a state-changing request.",
 		Assumptions: tb, Batches: tier(192, 2048), Helpers: []string{"probe", "holder"}, Chunk: 8,
-		Floors: []string{"tick-accepted", "tick-refused:no-witness", "tick-refused:stale-epoch", "tick-refused:subscriber-rejects", "tick-with>=3-probes", "duplicate-subscription", "two-ticks-in-one-block", "early-jump-across-a-byte-boundary", "jump-next-to-an-encoding-boundary", "tick-refused:subscriber-destroyed", "tick-re-entered-by-a-subscriber", "tick-refused:subscriber-re-enters-with-a-stale-epoch"},
+		Floors: []string{"tick-accepted", "tick-refused:no-witness", "tick-refused:stale-epoch", "tick-refused:subscriber-rejects", "tick-with>=3-probes", "duplicate-subscription", "two-ticks-in-one-block", "early-jump-across-a-byte-boundary", "jump-next-to-an-encoding-boundary", "tick-refused:subscriber-destroyed", "tick-re-entered-by-a-subscriber", "tick-refused:subscriber-re-enters-with-a-stale-epoch", "history-length-changed-between-ticks"},
 		Run:    runC06,
 	})
 	runner.Register(&runner.Check{
